@@ -34,7 +34,12 @@ type WalkCase struct {
 }
 
 func genWalkWith(t *rapid.T, o sm.SpecOpts) WalkCase {
-	a := sm.GenSpec(t, o)
+	var a *sm.ASpec
+	if o.Lively {
+		a = sm.GenLivelySpec(t, o)
+	} else {
+		a = sm.GenSpec(t, o)
+	}
 	c := WalkCase{Spec: a}
 	c.Node = rapid.SampledFrom(a.NodeNames()).Draw(t, "at")
 	if rapid.IntRange(0, 15).Draw(t, "odd") == 0 {
@@ -43,7 +48,7 @@ func genWalkWith(t *rapid.T, o sm.SpecOpts) WalkCase {
 	c.Bs = sm.GenBindings(t, "bs")
 	n := rapid.IntRange(0, 6).Draw(t, "nm")
 	for i := 0; i < n; i++ {
-		c.Messages = append(c.Messages, sm.GenMessage(t, fmt.Sprintf("m%d", i)))
+		c.Messages = append(c.Messages, sm.GenMessageFor(t, a, fmt.Sprintf("m%d", i)))
 	}
 	c.Limit = rapid.SampledFrom([]int{0, 1, 2, 3, 5, 8, 100, 100, 100, 100}).Draw(t, "limit")
 	switch rapid.IntRange(0, 9).Draw(t, "bk") {
@@ -100,7 +105,7 @@ func emittedOf(w *core.Walked) []string {
 // ---------------------------------------------------------------- C05
 
 func genWalk(t *rapid.T) WalkCase {
-	return genWalkWith(t, sm.SpecOpts{Deterministic: true, NativeToo: true, Fail: 2, GuardFail: 1, Emit: true, UserErrorNode: true})
+	return genWalkWith(t, sm.SpecOpts{Deterministic: true, NativeToo: true, Fail: 2, GuardFail: 1, Emit: true, UserErrorNode: true, Lively: rapid.IntRange(0, 3).Draw(t, "lively") > 0})
 }
 
 func checkWalk(c WalkCase) (v ev.Verdict) {
